@@ -201,37 +201,51 @@ ll_steps! {
     ll_push_nullable, ll_process_nullable: ll_nullable_tail;
 }
 
-/// add_error: a repeated location ends recovery; the list never grows beyond 101 entries.
+/// add_error: an error that has been reported is RECORDED (the parser stays in recovery mode, so
+/// `parse_into` cannot return Ok afterwards) - with recovery enabled or disabled; a repeated
+/// location ends recovery with an error but never clears the record.
+/// One harness per number of previous errors (a symbolic Vec length ran out of memory).
+fn add_error_body(prev: usize) {
+    let fname = Arc::new(PathBuf::new());
+    let mut p = LLKParser::new(tables::ll_anbn::START, tables::ll_anbn::LOOKAHEAD_AUTOMATA, tables::ll_anbn::PRODUCTIONS, tables::ll_anbn::TERMINAL_NAMES, tables::ll_anbn::NON_TERMINALS);
+    let no_recovery: bool = kani::any();
+    if no_recovery {
+        p.disable_recovery();
+    }
+    let s0: u32 = kani::any();
+    let s1: u32 = kani::any();
+    kani::assume(s0 < 1000 && s1 < 1000);
+    if prev == 1 {
+        p.error_entries.push(SyntaxError::default().with_location(Location { start: s0, end: s0 + 1, file_name: fname.clone(), ..Location::default() }));
+    }
+    let r = p.add_error(SyntaxError::default().with_location(Location { start: s1, end: s1 + 1, file_name: fname.clone(), ..Location::default() }));
+    // whatever it returns, the parser now knows that an error happened
+    assert!(p.is_in_recovery_mode());
+    assert!(p.error_entries.len() >= 1);
+    let dup = prev == 1 && s0 == s1;
+    if dup {
+        assert!(r.is_err() && p.error_entries.len() == 1);
+    } else {
+        assert!(p.error_entries.len() == prev + 1);
+    }
+    kani::cover!(dup || prev == 0);
+    kani::cover!(no_recovery);
+    core::mem::forget(r);
+    core::mem::forget(p);
+}
+
 #[kani::proof]
 #[kani::unwind(6)]
 #[kani::stub(std::fmt::format, stub_format)]
-pub(crate) fn ll_add_error_limits() {
-    let fname = Arc::new(PathBuf::new());
-    let mut p = LLKParser::new(tables::ll_anbn::START, tables::ll_anbn::LOOKAHEAD_AUTOMATA, tables::ll_anbn::PRODUCTIONS, tables::ll_anbn::TERMINAL_NAMES, tables::ll_anbn::NON_TERMINALS);
-    let n0: usize = kani::any();
-    kani::assume(n0 <= 2);
-    let starts: [u32; 3] = kani::any();
-    let mut i = 0;
-    while i < 2 {
-        if i < n0 {
-            p.error_entries.push(SyntaxError::default().with_location(Location { start: starts[i], end: starts[i] + 1, file_name: fname.clone(), ..Location::default() }));
-        }
-        i += 1;
-    }
-    let before = p.error_entries.len();
-    let e = SyntaxError::default().with_location(Location { start: starts[2], end: starts[2] + 1, file_name: fname.clone(), ..Location::default() });
-    let dup = (n0 > 0 && starts[0] == starts[2]) || (n0 > 1 && starts[1] == starts[2]);
-    let r = p.add_error(e);
-    if dup {
-        assert!(r.is_err() && p.error_entries.len() == before);
-    } else {
-        assert!(r.is_ok() && p.error_entries.len() == before + 1);
-    }
-    assert!(p.is_in_recovery_mode() == (p.error_entries.len() > 0));
-    kani::cover!(dup);
-    kani::cover!(!dup && n0 == 2);
-    core::mem::forget(r);
-    core::mem::forget(p);
+pub(crate) fn ll_add_error_first() {
+    add_error_body(0);
+}
+
+#[kani::proof]
+#[kani::unwind(6)]
+#[kani::stub(std::fmt::format, stub_format)]
+pub(crate) fn ll_add_error_second() {
+    add_error_body(1);
 }
 
 /// vacuity twin: must FAIL
